@@ -25,7 +25,8 @@ func init() { engines["owsim"] = engineOwSim }
 // models that tolerate any non-negative linked input
 var linkDest = []string{"Input", "Sum", "ApplyScalingFactor", "FixedPartition", "DeliveryRatio", "Gate", "PartitionDemand",
 	"RunoffCoefficient", "EmcDwc", "FixedConcentration", "Lag", "Muskingum", "DepthToRate", "PassLoadIfFlow", "ComputeProportion", "VariablePartition"}
-var sourceOnly = []string{"GR4J", "Simhyd", "RatingCurvePartition", "Sacramento", "Surm", "DateGenerator"}
+var sourceOnly = []string{"GR4J", "Simhyd", "RatingCurvePartition", "Sacramento", "Surm", "DateGenerator",
+	"Storage", "StorageRouting", "StorageTrapAll", "StorageParticulateTrapping", "DynamicSednetGully", "DynamicSednetGullyAlt"}
 
 type gNode struct {
 	col    []float64
@@ -62,6 +63,7 @@ type owCase struct {
 	args                                             []string
 	in, out, paramFile, stateFile, tsFile, finalFile string
 	preexisting                                      bool
+	relatedNames                                     bool
 }
 
 func contains(l []string, s string) bool {
@@ -80,8 +82,25 @@ func drawOwCase(w *simrt.Tape) *owCase {
 	nModels := 1 + w.Choose(4)
 	pool := append(append([]string{}, linkDest...), sourceOnly...)
 	used := map[string]bool{}
+	relatedNames := false
 	for i := 0; i < nModels; i++ {
 		name := pool[w.Choose(len(pool))]
+		if len(c.models) > 0 && w.Bool(25) {
+			// model types whose names contain one another (name lists on the command line are
+			// matched against them)
+			var related []string
+			for _, m := range c.models {
+				for _, cand := range pool {
+					if cand != m.name && !used[cand] && (strings.Contains(cand, m.name) || strings.Contains(m.name, cand)) {
+						related = append(related, cand)
+					}
+				}
+			}
+			if len(related) > 0 {
+				name = related[w.Choose(len(related))]
+				relatedNames = true
+			}
+		}
 		if used[name] {
 			continue
 		}
@@ -139,6 +158,7 @@ func drawOwCase(w *simrt.Tape) *owCase {
 		}
 		c.models = append(c.models, m)
 	}
+	c.relatedNames = relatedNames
 	// at least one model with stored inputs must exist, otherwise ow-sim cannot know the length
 	anyInputs := false
 	for _, m := range c.models {
@@ -578,6 +598,9 @@ func engineOwSim(rc *RunCtx) *Outcome {
 	}
 	if c.preexisting {
 		o.probe("overwrite_existing_output")
+	}
+	if c.relatedNames {
+		o.probe("model_names_containing_one_another")
 	}
 	return o
 }
